@@ -14,7 +14,7 @@ Definition in_rng (r : option (Z * Z)) (z : Z) : bool :=
   match r with Some (lo, hi) => Z.leb lo z && Z.leb z hi | None => false end.
 
 Definition is_try (k : conv_kind) : bool :=
-  match k with TryNN | TryPN | TrySPN => true | _ => false end.
+  match k with CTry => true | CFrom => false end.
 
 (** the side condition under which a macro invocation is sound: an infallible conversion needs the
     source range inside the target range (and inside the target's representation); a fallible one
@@ -24,9 +24,8 @@ Definition entry_ok (defs : newtypes) (e : conv_kind * string * string) : bool :
   match type_range defs src, type_range defs dst, repr_range defs dst with
   | Some (slo, shi), Some (dlo, dhi), Some (rlo, rhi) =>
       match k with
-      | TryNN | TryPN => Z.eqb dlo 0 && Z.leb rlo 0 && Z.leb dhi rhi
-      | TrySPN => Z.eqb dlo 0 && Z.leb rlo 0 && Z.leb shi dhi && Z.leb shi rhi
-      | _ => Z.leb dlo slo && Z.leb shi dhi && Z.leb rlo slo && Z.leb shi rhi
+      | CTry => Z.eqb dlo 0 && Z.leb rlo 0 && Z.leb dhi rhi
+      | CFrom => Z.leb dlo slo && Z.leb shi dhi && Z.leb rlo slo && Z.leb shi rhi
       end
   | _, _, _ => false
   end.
@@ -48,40 +47,17 @@ Proof.
   exists dlo, dhi. split; [reflexivity|].
   apply andb_true_iff in Hx as [Hx1 Hx2]. apply Z.leb_le in Hx1, Hx2.
   destruct k; cbn [is_try andb negb] in *.
-  - (* FromNN *)
+  - (* From *)
     apply andb_true_iff in Hok as [Hok H4]. apply andb_true_iff in Hok as [Hok H3].
     apply andb_true_iff in Hok as [H1 H2]. apply Z.leb_le in H1, H2, H3, H4.
     split; [|intros _; lia]. rewrite wrap_id by lia. reflexivity.
-  - (* FromNP *)
-    apply andb_true_iff in Hok as [Hok H4]. apply andb_true_iff in Hok as [Hok H3].
-    apply andb_true_iff in Hok as [H1 H2]. apply Z.leb_le in H1, H2, H3, H4.
-    split; [|intros _; lia]. rewrite wrap_id by lia. reflexivity.
-  - (* FromPN *)
-    apply andb_true_iff in Hok as [Hok H4]. apply andb_true_iff in Hok as [Hok H3].
-    apply andb_true_iff in Hok as [H1 H2]. apply Z.leb_le in H1, H2, H3, H4.
-    split; [|intros _; lia]. rewrite wrap_id by lia. reflexivity.
-  - (* TryNN *)
+  - (* TryFrom *)
     apply andb_true_iff in Hok as [Hok H3]. apply andb_true_iff in Hok as [H1 H2].
     apply Z.eqb_eq in H1. apply Z.leb_le in H2, H3. subst dlo.
     destruct (Z.leb 0 x && Z.leb x dhi) eqn:Er; cbn [andb negb].
     + apply andb_true_iff in Er as [R1 R2]. apply Z.leb_le in R1, R2.
       split; [|intros _; lia]. rewrite wrap_id by lia. reflexivity.
     + split; [reflexivity|discriminate].
-  - (* TryPN *)
-    apply andb_true_iff in Hok as [Hok H3]. apply andb_true_iff in Hok as [H1 H2].
-    apply Z.eqb_eq in H1. apply Z.leb_le in H2, H3. subst dlo.
-    destruct (Z.leb 0 x && Z.leb x dhi) eqn:Er; cbn [andb negb].
-    + apply andb_true_iff in Er as [R1 R2]. apply Z.leb_le in R1, R2.
-      split; [|intros _; lia]. rewrite wrap_id by lia. reflexivity.
-    + split; [reflexivity|discriminate].
-  - (* TrySPN: only negatives are rejected; the source's non-negative range fits *)
-    apply andb_true_iff in Hok as [Hok H4]. apply andb_true_iff in Hok as [Hok H3].
-    apply andb_true_iff in Hok as [H1 H2].
-    apply Z.eqb_eq in H1. apply Z.leb_le in H2, H3, H4. subst dlo.
-    destruct (Z.leb_spec 0 x) as [R1|R1].
-    + destruct (Z.leb_spec x dhi) as [R2|R2]; [|lia]. cbn [andb negb].
-      split; [|intros _; lia]. rewrite wrap_id by lia. reflexivity.
-    + cbn [andb negb]. split; [reflexivity|discriminate].
 Qed.
 
 (** the checked constructor: when the assertion is compiled in, it panics exactly for
